@@ -25,7 +25,7 @@ from .. import render_common as rc
 PROP = "C06"
 THEOREMS = ['unregister_unknown_is_noop', 'empty_provider_leaves_nothing']
 
-PROFILE = dict(w_provide=2, w_inject=0.4, p_inject_default=0.8, w_comp=6, w_slot=3, p_required=0.0, p_malformed=0.0,
+PROFILE = dict(p_side=0.15, w_provide=2, w_inject=0.4, p_inject_default=0.8, w_comp=6, w_slot=3, p_required=0.0, p_malformed=0.0,
                p_default_flag=0.1, depth=3)
 EXPECT_MSG = {0: "boom", 1: "5", 2: "2", 3: "line one\nline two"}
 PREFIX = "An error occured while rendering components "
